@@ -59,11 +59,12 @@ NESTED = {
 }
 ATOMS["nestseg"] = ("/a/([^/]+)", True)
 # patterns handed over as compiled objects carrying flags (str | Pattern is the documented argument type)
+ATOMS["namedopt"] = ("/(?P<x>[a-z]+)(?:/(?P<y>[A-Z]))?", False)     # y does not take part in a match of /a: delivered as None
 ATOMS["flag-i"] = ("<re.I>/a$", False)
 ATOMS["flag-x"] = ("<re.X>/a \\. (b) $", False)
 TOP_ATOMS = ["lit", "lit2", "litdot", "litpct", "litdollar", "any", "seg", "named", "seg2",
              "namedsuffix", "pctgroup", "grouppct", "pctgrouppct", "anchored", "opt", "regexdot",
-             "flag-i", "flag-x", "nest", "nestfall", "hosta", "hostba"]
+             "flag-i", "flag-x", "namedopt", "nest", "nestfall", "hosta", "hostba"]
 
 SEGS = ["a", "b", "a.b", "aXb", "%41", "A", "a%2Fb", "%", "a$", "a$b", "a+b", "c%C3%A9", "", "ab"]
 HOSTS = ["a", "b.a", "A", "a:8080"]
@@ -232,6 +233,19 @@ class Client:
         self.delegate = delegate
         self.conn = None
 
+    def get_raw(self, host, target):
+        if self.conn is None or self.conn.closed:
+            self.conn = httph.ServerConn(self.w, self.delegate)
+        c = self.conn
+        c.sock.take_sent()
+        c.send(("GET %s HTTP/1.1\r\nHost: %s\r\n\r\n" % (target, host)).encode("latin-1"))
+        data = c.sock.take_sent()
+        resps, problems = httph.read_responses(data, ["GET"], c.closed)
+        if problems or len(resps) != 1:
+            self.conn = None
+            return ("broken", repr(problems)[:60].encode())
+        return resps[0].code, resps[0].body
+
     def get(self, host, target, real_ip=False):
         if self.conn is None or self.conn.closed:
             self.conn = httph.ServerConn(self.w, self.delegate)
@@ -334,9 +348,15 @@ def reverse_case(st, case):
         host_blocks = [(".*", [leaf])]
     elif embed == "hostrule":
         tree = [["h", ".*", "Hh", [leaf]], catchall]
+    elif embed == "dup-name":
+        # an earlier rule registered under the same name: the later registration replaces it ("replacing previous value")
+        old = ["p", "/old" + "/([^/]+)" * cx(pat).groups, "O", None]
+        tree = [old, leaf, catchall]
     else:
         raise AssertionError(embed)
     names = {"T": "target"}
+    if embed == "dup-name":
+        names = {"O": "target", "T": "target"}
     bad = []
     with World() as w:
         if case["variant"] == "app":
@@ -496,7 +516,47 @@ class C31(Check):
             parts += [("P", i, 48, 2, 3) for i in range(48)]
         parts += [("H", i, 32) for i in range(32)]
         parts += [("R", i, 16) for i in range(16)]
+        parts.append(("static-first", 0))
         return parts
+
+    def _static_first(self, st):
+        """Application(static_path=...) puts its static rules in front of the application's own: a catch-all rule of
+        the application must not shadow /static/..., /favicon.ico or /robots.txt."""
+        import os
+        import shutil
+        import tempfile
+        from tornado.web import Application, RequestHandler
+        d = tempfile.mkdtemp(prefix="verif-c31-")
+        try:
+            os.makedirs(d + "/css")
+            for rel, body in (("hello.txt", b"STATIC hello"), ("css/a b.css", b"STATIC css"), ("robots.txt", b"STATIC robots"),
+                              ("favicon.ico", b"STATIC icon")):
+                with open(os.path.join(d, rel), "wb") as f:
+                    f.write(body)
+
+            class Page(RequestHandler):
+                def get(self, path):
+                    self.finish("PAGE " + path)
+            for prefix in (None, "/assets/"):
+                kw = {"static_path": d}
+                if prefix:
+                    kw["static_url_prefix"] = prefix
+                app = Application([(r"/(.*)", Page)], **kw)
+                with World() as w:
+                    cl = Client(w, app)
+                    pre = prefix or "/static/"
+                    for path, want in ((pre + "hello.txt", b"STATIC hello"), (pre + "css/a%20b.css", b"STATIC css"),
+                                       ("/robots.txt", b"STATIC robots"), ("/favicon.ico", b"STATIC icon"),
+                                       ("/other", b"PAGE other")):
+                        code, body = cl.get_raw("example.com", path)
+                        st.ev()
+                        st.nontriv(("static-first", prefix, path))
+                        if code != 200 or body != want:
+                            st.violation("dispatch:static-rule-shadowed" if want.startswith(b"STATIC") else "dispatch:static-first:other",
+                                         "Application([('/(.*)', Page)], static_path=..., static_url_prefix=%r): GET %s -> %r %r, "
+                                         "expected %r" % (prefix, path, code, body[:40], want), {"space": "static-first"})
+        finally:
+            shutil.rmtree(d, ignore_errors=True)
 
     # -- space P ---------------------------------------------------------
     def _run_list(self, names, plist, st, hosts):
@@ -531,6 +591,8 @@ class C31(Check):
                                        "variant": variant, "dispatched": list(got)})
 
     def run_partition(self, part, tier, st):
+        if part[0] == "static-first":
+            return self._static_first(st)
         if part[0] == "P":
             _, i, n, maxrules, maxsegs = part
             plist = list(paths(maxsegs))
@@ -596,9 +658,11 @@ class C31(Check):
             pat = ATOMS[name][0]
             ng = cx(pat).groups
             for args in itertools.product(REV_ARGS, repeat=ng):
-                for embed in ("top", "nested", "nested2", "hostblock", "hostrule", "nested-tuple"):
+                for embed in ("top", "nested", "nested2", "hostblock", "hostrule", "nested-tuple", "dup-name"):
                     for variant in ("app", "router"):
                         if variant == "router" and embed in ("hostblock", "nested-tuple"):
+                            continue
+                        if embed == "dup-name" and not ATOMS[name][1] is True:
                             continue
                         yield dict(space="R", atom=name, args=list(args), embed=embed, variant=variant)
 
@@ -619,6 +683,11 @@ class C31(Check):
 
     # -- replay ----------------------------------------------------------
     def replay(self, case):
+        if case.get("space") == "static-first":
+            from mc.core import Stats
+            st = Stats()
+            self._static_first(st)
+            return repr({k: v[0] for k, v in st.violations.items()}) or "ok"
         out = []
         if case["space"] == "P":
             names = case["names"]
